@@ -366,7 +366,16 @@ def _cuckoo(case, ctx, d):
 
     want = observe(o)
     if er is None:
-        loaders = [("frombytes", lambda: resupply(K.frombytes(raw, None, hf))),
+        own = o.error_rate  # the width can also be re-supplied as the rate the filter itself reports
+
+        def resupply_rest(g):
+            g.expansion_rate = o.expansion_rate
+            g.auto_expand = o.auto_expand
+            return g
+
+        loaders = [("frombytes_own_error_rate", lambda: resupply_rest(K.frombytes(raw, own, hf))),
+                   ("load_own_error_rate", lambda: resupply_rest(K.load_error_rate(own, ad.write(raw), hf))),
+                   ("frombytes", lambda: resupply(K.frombytes(raw, None, hf))),
                    ("filepath", lambda: resupply(K(filepath=ad.write(raw), hash_function=hf))),
                    ("filepath_Path", lambda: resupply(K(filepath=Path(ad.write(raw)), hash_function=hf)))]
     else:
